@@ -555,6 +555,11 @@ def run_case(case):
                        "resources": rng.choice([None, "cpu:1"])}
                 if rng.random() < 0.3:
                     cfg["targets"] = [rng.choice(OUTS)]
+                if rng.random() < 0.4:
+                    # requests of concurrent steps wait for the database lock in other orders
+                    cfg["db_delay"] = {"p": rng.choice([0.1, 0.4]), "max": 0.003, "seed": rng.randrange(1 << 30)}
+                if rng.random() < 0.3:
+                    cfg["thread_delay"] = {"p": rng.choice([0.3, 1.0]), "max": 0.02, "seed": rng.randrange(1 << 30)}
                 witness.update({"plan": plan, "cfg": cfg})
                 mode = rng.choice(["free", "jitter", "jitter", "serial"])
                 inject = random.Random(rng.randrange(1 << 30)) if case["kind"] == "inject" else None
